@@ -580,6 +580,9 @@ class MailboxSet(MailboxSetInterface[MailboxData]):
             self._layout.remove_folder(name, self.delimiter)
         except FileNotFoundError as exc:
             raise KeyError(name) from exc
+        except NotADirectoryError as exc:
+            # a name that leads to one of the maildir's own files
+            raise KeyError(name) from exc
         except OSError as exc:
             if exc.errno == errno.ENOTEMPTY:
                 raise MailboxHasChildren(name) from exc
@@ -593,9 +596,17 @@ class MailboxSet(MailboxSetInterface[MailboxData]):
         except FileNotFoundError as exc:
             raise MailboxError(after, b'Invalid mailbox name.',
                                ResponseCode.of(b'CANNOT')) from exc
+        if after.startswith(before + self.delimiter):
+            # a folder cannot be moved below itself
+            raise MailboxError(after, b'Invalid mailbox name.',
+                               ResponseCode.of(b'CANNOT'))
         try:
             self._layout.rename_folder(before, after, self.delimiter)
         except FileNotFoundError as exc:
             raise KeyError(before) from exc
         except FileExistsError as exc:
             raise ValueError(after) from exc
+        except NotADirectoryError as exc:
+            # a name that leads below one of the maildir's own files
+            raise MailboxError(after, b'Invalid mailbox name.',
+                               ResponseCode.of(b'CANNOT')) from exc
